@@ -158,6 +158,10 @@ def kinds_menu(thorough):
     menu.append(("cat", lambda R, S: ({"HED": {"a": "Red", "b": "(Blue, Square)"}},
                                       {"kind": "categorical", "map": {"a": "Red", "b": "(Blue, Square)"}},
                                       ["a", "b", "n/a", "zz"])))
+    # a categorical column one of whose levels is left unannotated (an empty string)
+    menu.append(("catempty", lambda R, S: ({"HED": {"a": "Red", "rest": "", "b": "(Blue, {val})" if False else "(Blue, Square)"}},
+                                           {"kind": "categorical", "map": {"a": "Red", "rest": "", "b": "(Blue, Square)"}},
+                                           ["a", "rest", "b", "n/a"])))
     menu.append(("val", lambda R, S: ({"HED": "Label/#"}, {"kind": "value", "template": "Label/#"},
                                       ["v1", "n/a", "fa\\fam\\d1\\1", "x#y"])))
     menu.append(("val2", lambda R, S: ({"HED": "ID/#"}, {"kind": "value", "template": "ID/#"}, ["k7", "n/a"])))
@@ -215,7 +219,7 @@ def build_cases(thorough):
                 alpha["HED"] = ["Yellow", "n/a", "(Yellow, Purple)"]
             yield f"{rk}:{R}:{S}" + (":digit-names" if alias["cat"] == "12" else ""), sidecar, spec, alpha
     # reference-free sidecars: every subset of the plain kinds
-    plain = ["cat", "val", "ign", "scalar"]
+    plain = ["cat", "val", "ign", "scalar", "catempty"]
     for r in range(1, len(plain) + 1):
         for combo in itertools.combinations(plain, r):
             sidecar, spec, alpha = {}, {}, {}
